@@ -46,7 +46,7 @@ def gen_case(rng, i, tier):
     group = i // 512
     env = env_for(group)
     doc = gen.tree(rng, 3, 3, nulls=False, root='map', pool=[0, 1, 2, 7, -5, 1.5, 0.25, 'x', 'y', 'zz', 'sp ace', True, False])
-    leaves = [(p, n) for p, n in walk(doc) if p and all(isinstance(k, str) for k in p) and not isinstance(n, (dict, list))]
+    leaves = [(p, n) for p, n in walk(doc) if p and all(isinstance(k, str) and '.' not in k and '}' not in k and '{' not in k for k in p) and not isinstance(n, (dict, list))]
     uses = []
     out = {}
     nuse = rng.randint(1, 3)
